@@ -445,6 +445,13 @@ Definition c06_event (raw : option config) (ms_after : mstate) (ev : event) : bo
 (* --- C07 unresponsive-connection refresh --- *)
 Definition window_ns (e : config) (rcnt : Z) : Z := 1000000 * (2 ^ rcnt * c_ums e).
 Definition window_in_range (e : config) (rcnt : Z) : bool := (rcnt <? 32) && (2 ^ rcnt * c_ums e <? W32).
+(* "more than unresponsive_detection_ms * 2^k has passed since the last response", for a clock that is an
+   int64 count of nanoseconds (0 <= last <= now < 2^63): from k = 64 on the window (>= 2^64 ns, detection
+   is enabled so ms >= 1) cannot have passed; the test is spelled out so that evaluation never builds 2^k
+   for a wild k (window_elapsed_spec in InvC07.v ties it to window_ns) *)
+Definition Int64Max : Z := 9223372036854775807.
+Definition window_elapsed (e : config) (rcnt last now : Z) : bool :=
+  if rcnt <? 64 then last <? now - window_ns e rcnt else false.
 
 Definition c07_event (raw : option config) (ms : mstate) (before : obs) (ev : event) (after : obs) : bool :=
   let e := eff raw in
@@ -471,8 +478,8 @@ Definition c07_event (raw : option config) (ms : mstate) (before : obs) (ev : ev
                 negb (has_newsc (ev_out ev)) && eqb_slot_refresh sb sa
               else
                 (sl_de sa =? (sl_de sb + 1) mod W32) && (sl_last sa =? sl_last sb) && (sl_rcnt sa =? sl_rcnt sb) &&
-                (if window_in_range e (sl_rcnt sb) then
-                   let trigger := (c_ucalls e <=? (sl_de sb + 1) mod W32) && (sl_last sb <? now - window_ns e (sl_rcnt sb)) &&
+                (if (0 <=? sl_last sb) && (now <=? Int64Max) then
+                   let trigger := (c_ucalls e <=? (sl_de sb + 1) mod W32) && window_elapsed e (sl_rcnt sb) (sl_last sb) now &&
                                   negb (sl_refreshing sb) in
                    Bool.eqb (has_newsc (ev_out ev)) trigger
                  else true) &&
@@ -719,6 +726,51 @@ Definition C09D_ok (raw : option config) (o0 : obs) (tr : list event) : bool := 
 (* trigger of known finding RR2: C09 proper holds, only the dead-slot clause fails *)
 Definition known_RR2 (raw : option config) (o0 : obs) (tr : list event) : bool :=
   C09_ok raw o0 tr && negb (C09D_ok raw o0 tr).
+
+(* --- C09, the fairness window itself, kept separate (known finding RR1): while the pool
+   composition is unchanged, successive round-robin BIND calls advance by ONE CHANNEL, cyclically
+   (equivalently: any n*k consecutive ones put exactly k on each of the n channels).  c09_event
+   already checks that the uint32 cursor advances by one and that the call is assigned slot
+   (cursor mod n); this clause compares the slot with the previous call's slot.  It can only fail
+   where the cursor wraps around 2^32 and n does not divide 2^32 (C09W_ok_no_wrap in InvC09W.v). --- *)
+Definition c09w_event (raw : option config) (ms : mstate) (prevn : option nat) (before : obs) (ev : event)
+  : bool * option nat :=
+  match ev_op ev with
+  | OpPick pi m _ _ _ _ =>
+      match nth_picker ms pi with
+      | Some (PSnap (_ :: _)) =>
+          if is_rr_bind raw m then
+            let n := length (o_slots before) in
+            let zn := Z.of_nat n in
+            (match prevn with
+             | Some n0 => if Nat.eqb n0 n
+                          then ((o_rr before + 1) mod W32) mod zn =? ((o_rr before mod zn) + 1) mod zn
+                          else true
+             | None => true
+             end, Some n)
+          else (true, prevn)
+      | _ => (true, prevn)
+      end
+  | _ => (true, prevn)
+  end.
+
+Fixpoint c09w_from (raw : option config) (ms : mstate) (prevn : option nat) (before : obs) (tr : list event) : bool :=
+  match tr with
+  | [] => true
+  | ev :: r =>
+      match ev_obs ev with
+      | Some after =>
+          let '(ok, prevn') := c09w_event (raw_in_force raw ms (ev_op ev)) ms prevn before ev in
+          ok && c09w_from raw (track raw ms before ev after) prevn' after r
+      | None => true
+      end
+  end.
+
+Definition C09W_ok (raw : option config) (o0 : obs) (tr : list event) : bool := c09w_from raw ms_init None o0 tr.
+
+(* trigger of known finding RR1: C09 proper and the dead-slot clause hold, only the step across the wrap fails *)
+Definition known_RR1 (raw : option config) (o0 : obs) (tr : list event) : bool :=
+  C09_ok raw o0 tr && C09D_ok raw o0 tr && negb (C09W_ok raw o0 tr).
 
 (* --- C03, additional clause kept separate (added after seeded change C03-r2c,
    which corrupted scStates itself): growth is judged against the connection
